@@ -418,6 +418,18 @@ def _regular_file_everywhere(ctx):
                                 ok = True
                 n += 1
                 ctx.ob("R9", f"{rel}:{q}", f"`{short(c, 60)}` skips the regular-file check only where `{x}` is already known to be a file", ok, key=f"{q}|file-check-skipped-without-evidence", where=loc(c))
+    # one definition of "executable": the POSIX predicate answers with the kernel's own test for *this* process on every path that
+    # can say yes - mode bits say what somebody may do (`-rwx------ root`, `---rwxrwx` for its owner), execvp asks access()
+    pm = ctx.repo.module(EX)
+    pf = pm.func("is_executable_in_posix")
+    pp = param_name(pf, 0, skip_self=False)
+    for r_ in [r for r in walk_local(pf) if isinstance(r, ast.Return)]:
+        v = r_.value
+        if v is None or (isinstance(v, ast.Constant) and not v.value):
+            continue
+        n += 1
+        ok = isinstance(v, ast.Call) and call_name(v) == "os.access" and len(v.args) >= 2 and unparse(v.args[0]) == pp and unparse(v.args[1]) in ("os.X_OK", "X_OK") and not any(k.arg == "effective_ids" for k in v.keywords)
+        ctx.ob("R9", f"{EX}:is_executable_in_posix", f"`{short(r_, 60)}`: every answer that can be 'yes' is os.access({pp}, os.X_OK) - the test execvp itself applies for this process", ok, key="is_executable_in_posix|answer-not-access", where=loc(r_))
     # listings: what is yielded / collected passed the predicate
     cm = ctx.repo.module(CC)
     for q in ("_yield_accessible_unix_file_names",):
